@@ -62,6 +62,13 @@ def gen(ch, tier):
     shape = ch.choice([(2, 5, 6), (2, 5, 6), (2, 2, 30), (3, 3, 12), (4, 4, 7), (5, 5, 5), (2, 4, 3)])
     case = ac.gen_align_case(ch, min_annot=shape[0], max_annot=shape[1], max_units=shape[2], max_total=90,
                              max_candidates=40000, allow_none_label=ch.coin(0.3))
+    # history on the SAME continuum object before the judged alignment: align, then remove / add units
+    if ch.coin(0.25):
+        h = ch.sub("history")
+        case["history"] = [["align", h.choice(["best", "soft"])]] + \
+                          [[h.choice(["remove", "remove", "add"]), h.randint(0, 4), h.randint(0, 30),
+                            world.r3(h.uniform(0, 25)), world.r3(h.uniform(0.5, 4))] for _ in range(h.randint(1, 3))] + \
+                          ([["align", "best"]] if h.coin(0.3) else [])
     if ch.coin(cfg["p_pooled"]) and world.continuum_units(case["continuum"]) <= 20:
         g = ch.sub("gamma")
         has_none = any(l is None for _, us in case["continuum"]["annotators"] for _, _, l in us)
@@ -78,10 +85,40 @@ def _has_none(case):
     return any(l is None for _, us in case["continuum"]["annotators"] for _, _, l in us)
 
 
+def apply_history(continuum, dissim, history, labels):
+    """Operations a caller may have performed on this very object before asking for the alignment."""
+    n = 0
+    for op in history:
+        try:
+            if op[0] == "align":
+                if len(continuum.annotators) >= 2 and continuum:
+                    (continuum.get_best_alignment if op[1] == "best" else continuum.get_best_soft_alignment)(dissim)
+                    n += 1
+            else:
+                annots = list(continuum.annotators)
+                a = annots[op[1] % len(annots)]
+                if op[0] == "remove":
+                    units = list(continuum.iter_annotator(a))
+                    if units and continuum.num_units > 1:
+                        continuum.remove(a, units[op[2] % len(units)])
+                        n += 1
+                else:
+                    from pyannote.core import Segment
+                    continuum.add(a, Segment(op[3], op[3] + op[4]), labels[op[2] % len(labels)])
+                    n += 1
+        except Exception:  # noqa: BLE001 - history only; the judged call comes afterwards
+            pass
+    return n
+
+
 def run(case):
     continuum = world.build_continuum(case["continuum"])
     dissim = world.build_dissim(case["dissim"])
     stats, violations = {}, []
+    if case.get("history"):
+        labels = sorted({l for _, us in case["continuum"]["annotators"] for _, _, l in us if l is not None}) or ["a"]
+        stats["history_ops_applied"] = apply_history(continuum, dissim, case["history"], labels)
+        stats["cases_with_history"] = 1
     cd = digest([case["continuum"], case["dissim"]])
     keys = {"cases": [cd], "nontrivial": [], "shapes": []}
     sizes = [len(u) for _, u in case["continuum"]["annotators"]]
@@ -156,6 +193,15 @@ def run(case):
 
 
 def shrink_candidates(case, violation):
+    if case.get("history"):
+        c = copy.deepcopy(case)
+        c.pop("history")
+        yield c
+        if len(case["history"]) > 1:
+            for i in range(len(case["history"])):
+                c = copy.deepcopy(case)
+                del c["history"][i]
+                yield c
     if "gamma" in case and not violation.get("sig", {}).get("pooled"):
         c = copy.deepcopy(case)
         for k in ("gamma", "schedule", "faults"):
